@@ -29,7 +29,7 @@ RULE = ("cases = key set (1..48 distinct keys: small / colliding / negative / +-
         "queries; on narrow key dtypes a third of the cases query with int64 arrays incl. absent keys congruent to a present key "
         "modulo 2**bits; distinct = distinct (keys, mod, history); non-trivial = >= 2 keys and >= 2 operations")
 EXHAUSTIVE = {"quick": False, "thorough": False}
-CORRESPONDENCE_ONLY = ["zeros_like / ones_like / + / ==", "HashSet.contains", "value dtypes"]
+CORRESPONDENCE_ONLY = ["zeros_like / ones_like / + / ==", "value dtypes"]
 ASSUMPTIONS = ["keys handed to the constructor are distinct (the library's documented precondition)"]
 
 
@@ -194,14 +194,12 @@ def oracle(p):
     return {"k": "trace", "v": trace}
 
 
-LEAN_OPS = ("getvec", "get1", "setscalar", "seteach", "fill", "contains", "items")
+LEAN_OPS = ("getvec", "get1", "setscalar", "seteach", "fill", "contains", "items", "hs_contains")
 
 
 def lean_request(p):
-    if any(o["t"] not in LEAN_OPS for o in p["ops"]):
-        ops = [o for o in p["ops"] if o["t"] in LEAN_OPS]
-    else:
-        ops = p["ops"]
+    # HashSet(keys).contains is the `contains` of a table over the same keys (its values play no role)
+    ops = [dict(o, t="contains") if o["t"] == "hs_contains" else o for o in p["ops"] if o["t"] in LEAN_OPS]
     return {"op": "HT.run", "keys": p["keys"], "vals": p["vals"], "mod": p["mod"], "ops": ops}
 
 
